@@ -1,6 +1,6 @@
 /-
-  Hs.Model.NsProtos — `Namespace::protos` with `protos_from_def` and `find_flattened_children`
-  (src/haystack/defs/namespace.rs), the last part of the namespace that reads more of a def than the tags of
+  Hs.Model.NsProtos — `Namespace::protos` with `protos_from_def` and `find_flattened_children`, and
+  `core_type_defs` (src/haystack/defs/namespace.rs), the last part of the namespace that reads more of a def than the tags of
   Hs.Model.NsAssoc.
 
   A dict is reduced to an association list from tag names to value TOKENS (equal tokens = equal values; token 0
@@ -69,5 +69,18 @@ def protosFromDef (fuel : Nat) (ns : Ns) (pd : ProtoDefs) (parent : PDict) (name
 /-- `protos`, before the `HashSet` -/
 def protos (fuel : Nat) (ns : Ns) (pd : ProtoDefs) (parent : PDict) : List PDict :=
   parent.flatMap (fun kv => protosFromDef fuel ns pd parent kv.1)
+
+/-! ### `core_type_defs` -/
+
+/-- the sixteen names `core_type_defs` looks up, in the order of the fields of `CoreTypeDefs`
+(marker, na, bool, number, coord, str, symbol, reference, uri, xstr, date, time, datetime, dict, list, grid) -/
+def coreTypeNames : List Name :=
+  [ ['m','a','r','k','e','r'], ['n','a'], ['b','o','o','l'], ['n','u','m','b','e','r'], ['c','o','o','r','d'],
+    ['s','t','r'], ['s','y','m','b','o','l'], ['r','e','f'], ['u','r','i'], ['x','s','t','r'], ['d','a','t','e'],
+    ['t','i','m','e'], ['d','a','t','e','T','i','m','e'], ['d','i','c','t'], ['l','i','s','t'], ['g','r','i','d'] ]
+
+/-- `core_type_defs`: per field the def of that name, `none` for the empty dict the code substitutes -/
+def coreTypeDefs (g : Defs) : List (Option Name) :=
+  coreTypeNames.map (fun n => if defined g n then some n else none)
 
 end Hs.NsA
